@@ -15,5 +15,8 @@ SKELETONS = [
     ("port", "http://x.fr:", "/a"),
     ("no-scheme", "", "x.fr/a/"),
     ("redirect", "http://x.fr/r?u=", ""),
+    ("path-escape-index", "http://x.fr/a/%", "ndex.html"),
+    ("path-escape-amp", "http://x.fr/a/%", "mp/"),
+    ("youtube-lang", "https://www.youtube.com/watch?v=abc&", "l=fr"),
 ]
-LONG = ("path", "query-key", "query-value", "query-escape", "query-item", "fragment", "redirect")
+LONG = ("path-escape-index", "path-escape-amp", "youtube-lang", "path", "query-key", "query-value", "query-escape", "query-item", "fragment", "redirect")
